@@ -39,6 +39,60 @@ def _int_literals(fn_node, module_ints):
     return found
 
 
+def _const_int(node):
+    """value of a module-level integer constant written as a literal or as arithmetic on literals (`2**28`, `64 * 1024`, `1 << 20`);
+    None for anything else"""
+    if node is None:
+        return None
+    for n in ast.walk(node):
+        if not isinstance(n, (ast.Constant, ast.BinOp, ast.UnaryOp, ast.operator, ast.unaryop, ast.Expression)):
+            return None
+        if isinstance(n, ast.Constant) and (not isinstance(n.value, int) or isinstance(n.value, bool)):
+            return None
+    try:
+        v = eval(compile(ast.Expression(node), "<const>", "eval"), {"__builtins__": {}}, {})  # literals and operators only
+    except Exception:  # noqa: BLE001
+        return None
+    return v if isinstance(v, int) and not isinstance(v, bool) else None
+
+
+def function_literals(path, functions=None):
+    """{function: {literal: count}} of the integer literals of absolute value > 3 (module-level integer constants referenced by
+    name included) of the listed functions (all functions and methods of the file when None): what `literal_guard` compares"""
+    tree = ast.parse(open(path).read())
+    module_ints = {}
+    for node in tree.body:
+        if isinstance(node, (ast.Assign, ast.AnnAssign)):
+            v = _const_int(node.value)
+            targets = node.targets if isinstance(node, ast.Assign) else [node.target]
+            if v is not None:
+                for t in targets:
+                    if isinstance(t, ast.Name):
+                        module_ints[t.id] = v
+    out = {}
+    for node in tree.body:
+        if isinstance(node, ast.FunctionDef):
+            out[node.name] = _int_literals(node, module_ints)
+        elif isinstance(node, ast.ClassDef):
+            for sub in node.body:
+                if isinstance(sub, ast.FunctionDef):
+                    out[f"{node.name}.{sub.name}"] = _int_literals(sub, module_ints)
+    return out if functions is None else {k: v for k, v in out.items() if k in functions}
+
+
+def guard_from_baseline(spec_name, repo):
+    """literal_guard for every (source file, function) recorded for `spec_name` in translator/literal_baseline.json (written by
+    translator/mk_literal_baseline.py from the unchanged tree).  Added after the seeded change C14f: `misorientation_angles`
+    processed in blocks sized by a new module-level constant 2**28, the tail dropped by a floor division -- at the traced sizes the
+    generated code is unchanged, so the tie did not break.  Loops whose trip count depends on the DATA cannot be validated at the
+    small instance sizes: an integer that can act as a block size fails closed here, for the data-sized functions of every group."""
+    import json
+    import os
+    base = json.load(open(os.path.join(os.path.dirname(os.path.abspath(__file__)), "literal_baseline.json"))).get(spec_name, {})
+    for rel, fns in base.items():
+        literal_guard(os.path.join(repo, rel), list(fns), {f: {int(k): c for k, c in lits.items()} for f, lits in fns.items()})
+
+
 def literal_guard(path, functions, baseline):
     """functions: names (a method is named `Class.method`); baseline: {name: {literal: count}}"""
     tree = ast.parse(open(path).read())
@@ -47,10 +101,11 @@ def literal_guard(path, functions, baseline):
         if isinstance(node, (ast.Assign, ast.AnnAssign)):
             val = node.value
             targets = node.targets if isinstance(node, ast.Assign) else [node.target]
-            if isinstance(val, ast.Constant) and isinstance(val.value, int) and not isinstance(val.value, bool):
+            v = _const_int(val)
+            if v is not None:
                 for t in targets:
                     if isinstance(t, ast.Name):
-                        module_ints[t.id] = val.value
+                        module_ints[t.id] = v
     nodes = {}
     for node in tree.body:
         if isinstance(node, ast.FunctionDef):
